@@ -88,7 +88,7 @@ func runC04(c *Ctx) {
 		return i > 0 && (pk[name[:i]] || !strings.Contains(name, "/arity@"))
 	}
 	c04Docs = docByFn
-	c.Replayer = replayArity
+	c.Replayer = withSpecCases(replayArity)
 	c.VerifyKnown = true
 	c.Extra["builtins_with_doc_contract"] = len(jobs)
 	c.addResults(results)
